@@ -24,6 +24,76 @@ from pyvc.spec import And, Implies, Not, V
 from pyvc.values import Opaque
 
 
+class GhostPath:
+    """Model of pathlib.Path over opaque argument strings (library model, A3): a path is a term
+         arg(x) | join(p, name) | abs(cwd, p) | cwd(tag)
+    `Path(x)` builds arg/join, `.absolute()` resolves against the GHOST working directory of the symbolic state at the
+    time of the call (so an earlier chdir would show), `Path.cwd()` is that directory.  Whether an argument string is
+    relative or absolute is unknown, hence abs(cwd, arg(x)) is left symbolic."""
+    __slots__ = ("op", "args")
+    _pyvc_pure_model = True
+
+    def __init__(self, *parts):
+        if len(parts) == 1:
+            p = parts[0]
+            if isinstance(p, GhostPath):
+                self.op, self.args = p.op, p.args
+            else:
+                self.op, self.args = "arg", (getattr(p, "tag", p),)
+        else:
+            head = parts[0] if isinstance(parts[0], GhostPath) else GhostPath(parts[0])
+            self.op, self.args = "join", (head,) + tuple(getattr(x, "tag", x) for x in parts[1:])
+
+    @classmethod
+    def term(cls, op, *args):
+        g = cls.__new__(cls)
+        g.op, g.args = op, tuple(args)
+        return g
+
+    def __eq__(self, o):
+        return isinstance(o, GhostPath) and (self.op, self.args) == (o.op, o.args)
+
+    def __hash__(self):
+        return hash((self.op, self.args))
+
+    def __repr__(self):
+        return f"{self.op}({', '.join(map(repr, self.args))})"
+
+    def is_absolute_by_construction(self):
+        return self.op in ("abs", "cwd") or (self.op == "join" and self.args[0].is_absolute_by_construction())
+
+    def absolute(self):
+        raise NotImplementedError("evaluated through its handler")
+
+    @classmethod
+    def cwd(cls):
+        raise NotImplementedError("evaluated through its handler")
+
+
+def _ghost_cwd(st):
+    cur = st.heap.get(("glob", "cwd"))
+    if cur is None or (isinstance(cur, Opaque) and cur.tag == "cwd@entry"):
+        return GhostPath.term("cwd", "entry")
+    if isinstance(cur, GhostPath):
+        return cur
+    return GhostPath.term("cwd", getattr(cur, "tag", repr(cur)))
+
+
+def _h_absolute(ex, st, recv, args, kwargs, node):
+    if recv.is_absolute_by_construction():
+        return recv
+    return GhostPath.term("abs", _ghost_cwd(st), recv)
+
+
+def _h_cwd(ex, st, recv, args, kwargs, node):
+    return _ghost_cwd(st)
+
+
+GhostPath.absolute._pyvc_intrinsic = _h_absolute
+GhostPath.cwd.__func__._pyvc_intrinsic = _h_cwd
+ENTRY_CWD = GhostPath.term("cwd", "entry")
+
+
 @contract
 class cli_tail(Contract):
     key = "geophires_x/__main__.py::<module tail from 'rc ='>"
@@ -32,17 +102,20 @@ class cli_tail(Contract):
     result = None
     may_raise = True
 
+    anchor = "rc"          # the extraction starts at the first assignment to this name ...
+    anchor_after = False   # ... or just after it
+
     def load(self, ctx):
         path = os.path.join(ctx.repo_src, "geophires_x", "__main__.py")
         tree, _ = load_module_ast(path)
         start = None
         for k, stmt in enumerate(tree.body):
-            if isinstance(stmt, ast.Assign) and any(isinstance(t, ast.Name) and t.id == "rc" for t in stmt.targets):
-                start = k
+            if isinstance(stmt, ast.Assign) and any(isinstance(t, ast.Name) and t.id == self.anchor for t in stmt.targets):
+                start = k + (1 if self.anchor_after else 0)
                 break
         if start is None:
             from pyvc.values import Unsupported
-            raise Unsupported("__main__.py: no `rc = ...` statement to anchor the run-and-exit tail")
+            raise Unsupported(f"__main__.py: no `{self.anchor} = ...` statement to anchor the extraction")
         fn = ast.parse("def __cli_tail__():\n    pass\n").body[0]
         fn.body = tree.body[start:]
         fn.lineno = tree.body[start].lineno
@@ -57,7 +130,11 @@ class cli_tail(Contract):
         ns.stash_cwd = Opaque("cwd@entry")
         ns.stash_sys_argv = Opaque("sys.argv@entry")
         ns.__file__ = path
+        self.bind_names(ns)
         return fn, ns
+
+    def bind_names(self, ns):
+        pass
 
     def native_witness(self, obname, repo_src):
         """replay on the real program: `python -m geophires_x` on an input whose simulation aborts (user-provided
@@ -131,7 +208,69 @@ property_info("C20", level="other",
               explanation="Partial. Under contract: the run-and-exit tail of the CLI module (mechanically extracted) and, "
                           "under C08, the client. The argument normalisation, the Monte Carlo call site and equality of "
                           "the reports across entry points are not decided.",
-              not_decided=["argparse prefix and absolute-path rewriting of sys.argv[1..2] in __main__.py (path algebra - not built)",
+              not_decided=["argparse's own parsing of the command line (trusted positional mapping)",
+                           "that main() writes the report and its JSON to sys.argv[2] (GEOPHIRESv3 / Outputs path handling)",
                            "relative output-file resolution in Outputs.read_parameters",
                            "'the same case report' across entry points (whole-program determinism, see C08)",
                            "the Monte Carlo driver's call site"])
+
+
+# ---------------------------------------------------------------------------------------------------------------------
+@contract
+class cli_arguments(cli_tail):
+    """the statements AFTER `parsed_args = ...` to the end: argument normalisation + the tail.  argparse's result is
+    given (its positional mapping of the command line is trusted): the input argument, and the output argument or none.
+    pathlib.Path is replaced by the GhostPath model above; sys.argv is a concrete three- or two-element list of opaque
+    strings.  Clause (statement: 'writes the report ... to the requested relative or absolute path (or the documented
+    default name)' - the CLI's half of it): main() is entered with sys.argv[1] = the input argument and sys.argv[2] = the
+    output argument, both resolved against the STARTING working directory, or <starting directory>/HDR.out."""
+    key = "geophires_x/__main__.py::<module from after 'parsed_args ='>"
+    anchor = "parsed_args"
+    anchor_after = True
+
+    def configs(self):
+        return [("output-argument=given", {"_out": True}), ("output-argument=absent", {"_out": False})]
+
+    def bind_names(self, ns):
+        ns.Path = GhostPath
+        del ns.stash_cwd, ns.stash_sys_argv          # assigned by the extracted statements themselves
+
+    def load(self, ctx):
+        fn, ns = cli_tail.load(self, ctx)
+        self._ns = ns
+        return fn, ns
+
+    def setup(self, ex, st, cfg):
+        argv = [Opaque("argv0"), Opaque("input-arg")] + ([Opaque("output-arg")] if cfg["_out"] else [])
+        self._entry_argv = argv
+        self._out_given = bool(cfg["_out"])
+        st.heap[("glob", "sys.argv")] = argv
+        pa = {"input-file": [argv[1]]}
+        if cfg["_out"]:
+            pa["output-file"] = argv[2]
+        self._ns.parsed_args = pa
+
+    def _frame(self, s):
+        st = s._st
+        cwd = st.heap.get(("glob", "cwd"))
+        argv = st.heap.get(("glob", "sys.argv"))
+        return (cwd is None or cwd == ENTRY_CWD or (isinstance(cwd, Opaque) and cwd.tag == "cwd@entry"),
+                argv is self._entry_argv)
+
+    def _argv_clause(self, s, cfg_out):
+        seen = s._st.heap.get(("glob", "argv_at_main"))
+        want_in = GhostPath.term("abs", ENTRY_CWD, GhostPath(Opaque("input-arg")))
+        want_out = GhostPath.term("abs", ENTRY_CWD, GhostPath(Opaque("output-arg"))) if cfg_out else \
+            GhostPath.term("join", ENTRY_CWD, "HDR.out")
+        ok = isinstance(seen, tuple) and len(seen) == 3 and seen[1] == want_in and seen[2] == want_out
+        return {"main_sees_input_and_output_paths_resolved_against_the_starting_directory": V(bool(ok))}
+
+    def ensures(self, s, r):
+        out = cli_tail.ensures(self, s, r)
+        out.update(self._argv_clause(s, self._out_given))
+        return out
+
+    def ensures_on_raise(self, s, exc):
+        out = cli_tail.ensures_on_raise(self, s, exc)
+        out.update(self._argv_clause(s, self._out_given))
+        return out
